@@ -80,7 +80,18 @@ def variant_tree(f, data, rng, variant):
 
     if variant == 0:
         return gen.build_tree(f, data)[0]
-    t, names = gen.build_tree(f, data, child_order_rng=rng)
+    # siblings handed over in a shuffled order and, for the odd variants, clones created in the opposite sibling order
+    # (other graph positions and edge order)
+    t, names = gen.build_tree(f, data, child_order_rng=rng,
+                              order=f.postorder(reverse_siblings=True) if variant in (1, 3) else None)
+    outs = list(t.outliers)
+    if len(outs) >= 2:
+        # the outlier set is a set: the same tree with its outliers assigned in another order
+        for dp in outs:
+            t.remove_data_point_from_outliers(dp)
+        rng.shuffle(outs)
+        for dp in outs:
+            t.add_data_point_to_outliers(dp)
     if variant == 2:
         t.relabel_nodes()  # pre-order names: a different labelling of the same tree
         return t
